@@ -240,8 +240,21 @@ pub proof fn lemma_ewm_value(val: real, e: real, a: real, q: real, n: int)
 pub proof fn lemma_half_even(k: int)
     requires k >= 0,
     ensures (k * (k + 1)) % 2 == 0, k >= 1 ==> k * (k + 1) / 2 >= 1,
+    decreases k
 {
-    assert((k * (k + 1)) % 2 == 0) by(nonlinear_arith) requires k >= 0;
+    // by induction: k(k+1) = (k-1)k + 2k, and adding a multiple of 2 does not change the remainder (no nonlinear search)
+    if k > 0 {
+        lemma_half_even(k - 1);
+        let b = (k - 1) * k;
+        assert(k * (k + 1) == 2 * k + b) by(nonlinear_arith) requires b == (k - 1) * k;
+        vstd::arithmetic::div_mod::lemma_mod_multiples_vanish(k, b, 2);
+        assert((2 * k + b) % 2 == b % 2);
+        assert(b == (k - 1) * ((k - 1) + 1));
+        assert(b % 2 == 0);
+        assert((k * (k + 1)) % 2 == 0);
+    } else {
+        assert(k * (k + 1) == 0) by(nonlinear_arith) requires k == 0;
+    }
     if k >= 1 { assert(k * (k + 1) >= 2) by(nonlinear_arith) requires k >= 1; }
 }
 
